@@ -66,6 +66,8 @@ func (eng *Engine) runSweeps(prop string, info PropInfo) ([]*Obl, []string) {
 			out = append(out, eng.sweepDeterminism(prop)...)
 		case "readframe":
 			out = append(out, eng.sweepReadFrame(prop)...)
+		case "drawop":
+			out = append(out, eng.sweepDrawOp(prop)...)
 		}
 	}
 	return out, assum
@@ -359,6 +361,53 @@ func (eng *Engine) sweepReadFrame(prop string) []*Obl {
 		}
 		out = append(out, structural(fmt.Sprintf("sweep/%s/rect-size-only", short(f)), "sweep", f.String(),
 			"the target rectangle is read only through Dx, Dy, Empty, or handed to Draw", len(bad) == 0, strings.Join(bad, "; "), prop+".reads"))
+	}
+	return out
+}
+
+
+// sweepDrawOp (C16): the compositing operator of a vec.Rasterizer is stored to by its Draw method only (there: copied
+// into the inner rasteriser, then reverted to draw.Over), so "the configured operator applies to the first drawn path"
+// cannot be undone by any other method (Reset, the path verbs) of the library.
+func (eng *Engine) sweepDrawOp(prop string) []*Obl {
+	var out []*Obl
+	for _, f := range eng.sweepFuncs() {
+		var bad []string
+		for _, b := range f.Blocks {
+			for _, ins := range b.Instrs {
+				fa, ok := ins.(*ssa.FieldAddr)
+				if !ok {
+					continue
+				}
+				pt, ok := fa.X.Type().Underlying().(*types.Pointer)
+				if !ok {
+					continue
+				}
+				st, ok := pt.Elem().Underlying().(*types.Struct)
+				if !ok || st.Field(fa.Field).Name() != "DrawOp" || !strings.HasSuffix(pt.Elem().String(), "raster/vec.Rasterizer") {
+					continue
+				}
+				if fa.Referrers() == nil {
+					continue
+				}
+				for _, r := range *fa.Referrers() {
+					if u, isStore := r.(*ssa.Store); isStore && u.Addr == fa {
+						if !strings.HasSuffix(f.String(), "raster/vec.Rasterizer).Draw") {
+							bad = append(bad, fmt.Sprintf("%s: vec.Rasterizer.DrawOp written in %s", eng.fset.Position(u.Pos()), short(f)))
+						}
+					}
+				}
+			}
+		}
+		rel := ""
+		if f.Pkg != nil {
+			rel = strings.TrimPrefix(f.Pkg.Pkg.Path(), eng.modPath)
+		}
+		if rel != "/raster/vec" && rel != "/render" && len(bad) == 0 {
+			continue // one obligation per function of the two packages that hold a vec.Rasterizer, and per offender elsewhere
+		}
+		out = append(out, structural(fmt.Sprintf("sweep/%s/drawop-only-in-draw", short(f)), "sweep", f.String(),
+			"vec.Rasterizer.DrawOp is stored to by (*vec.Rasterizer).Draw only", len(bad) == 0, strings.Join(bad, "; "), prop+".drawop"))
 	}
 	return out
 }
